@@ -65,6 +65,8 @@ def gen_case(rng, tier):
         "p_tick": rng.choice([0.0, 0.0, 0.2, 1.0]),
         "tick_seed": rng.getrandbits(32),
         "short_reads": rng.random() < 0.2,
+        # the --assembly path may be a symbolic link to the real file
+        "fa_symlink": rng.random() < 0.12,
     }
     nver = rng.choice([2, 2, 3, 4])
     big = rng.random() < 0.03
@@ -279,7 +281,7 @@ class Exec:
         fc, fm = self._file_class(FAI, "fai")
         ac, am = self._file_class(AGP, "agp")
         litter = any(
-            n not in (FA, FAI, AGP) for n in os.listdir(self.root)
+            n not in (FA, FAI, AGP, "store") for n in os.listdir(self.root)
         )
         w = self.world
         if fm == "equal" or am == "equal":
@@ -482,11 +484,21 @@ class Exec:
             when = w.clock if prev is None else max(prev + 1, w.clock)
             if when > w.clock:
                 w.advance(when - w.clock)
-            tmp = str(self.fa) + ".env"
+            target = str(self.fa)
+            if self.knobs.get("fa_symlink"):
+                store = os.path.join(self.root, "store")
+                os.makedirs(store, exist_ok=True)
+                target = os.path.join(store, "actual.fa")
+                if not os.path.islink(self.fa):
+                    if os.path.lexists(self.fa):
+                        os.unlink(self.fa)
+                    os.symlink(os.path.join("store", "actual.fa"), self.fa)
+                    os.utime(self.fa, ns=(w.clock * 10**9, w.clock * 10**9), follow_symlinks=False)
+            tmp = target + ".env"
             with open(tmp, "wb") as fh:
                 fh.write(self.blobs[v])
-            os.replace(tmp, self.fa)
-            w.stamp_path(self.fa, when)
+            os.replace(tmp, target)
+            w.stamp_path(target, when)
         self.cur_v = v
 
     def do_delete(self, rel):
